@@ -880,6 +880,13 @@ static void c17_jar_iter(Rng& r) {
     for (auto it = jar.begin(); it != jar.end() && steps < 1000; ++it, ++steps) seen.insert({(*it).name, (*it).value});
     std::multiset<std::pair<std::string, std::string>> wantm(want.begin(), want.end());
     if (seen != wantm) viol("c17:jar:iter-add", "iteration over a jar filled by add() visits " + std::to_string(seen.size()) + " of " + std::to_string(wantm.size()));
+    // the same walk written with the post-increment idiom (use(*it++)) and through operator->
+    { std::multiset<std::pair<std::string, std::string>> seen2; size_t st2 = 0; auto it = jar.begin();
+      while (it != jar.end() && st2++ < 1000) { const Http::Cookie& ck = *it++; seen2.insert({ck.name, ck.value}); }
+      if (seen2 != wantm) viol("c17:jar:iter-postfix", "a walk with *it++ over a jar filled by add() does not visit every stored cookie exactly once (" + std::to_string(seen2.size()) + " visits, " + std::to_string(std::set<std::pair<std::string, std::string>>(seen2.begin(), seen2.end()).size()) + " distinct cookies, " + std::to_string(wantm.size()) + " stored)");
+      std::multiset<std::pair<std::string, std::string>> seen3; size_t st3 = 0;
+      for (auto it3 = jar.begin(); it3 != jar.end() && st3 < 1000; ++it3, ++st3) seen3.insert({it3->name, it3->value});
+      if (seen3 != wantm) viol("c17:jar:iter-arrow", "iteration through operator-> differs"); }
     jar.removeAllCookies();
     if (jar.begin() != jar.end()) viol("c17:jar:clear", "jar not empty after removeAllCookies");
     g_distinct.add("jit:" + std::to_string(want.size()) + ":" + std::to_string(n));
